@@ -164,6 +164,19 @@ def dict_lookup(d, k):
     return d[k]
 
 
+def dict_len(d):
+    return len(d)
+
+
+def dict_key_at(d, j):
+    """the j-th key in iteration order"""
+    return list(d.keys())[j]
+
+
+def dict_val_at(d, j):
+    return list(d.values())[j]
+
+
 def str_len(s):
     return len(s)
 
